@@ -321,7 +321,44 @@ def r14_2(ctx):
             if "self.transformer.reset" not in names[last + 1:]:
                 bad.append(f"path [{p.outcome}] {p.guard_text()[:80]} ends without reset after {names[last] if last >= 0 else '?'}")
         ctx.check(f"Compiler.{mname} leaves the transformer reset on every exit", not bad, "reset() after the last transform on all paths (incl. exception edges)", "; ".join(sorted(set(bad))[:3]) or "ok", fn_where(idx, fi))
-    ctx.need(n_entry >= 2, f"expected compile_c_stmt and transform_insn to use the shared transformer, found {n_entry}")
+    # the shared transformer reached through another name (an alias, the value of a `with` block): the same obligation
+    def resets(stmts, recvs):
+        return any(isinstance(x, ast.Call) and isinstance(x.func, ast.Attribute) and x.func.attr == "reset" and U(x.func.value) in recvs for st in stmts for x in ast.walk(st))
+
+    for mname, m in ci.methods.items():
+        fi = idx.func(f"Compiler.{mname}")
+        parents = {c: n for n in ast.walk(m) for c in ast.iter_child_nodes(n)}
+        fresh_names = {U(t) for n in ast.walk(m) if isinstance(n, ast.Assign) and isinstance(n.value, ast.Call) and call_name(n.value) == "RZILTransformer" for t in n.targets}
+        for n in ast.walk(m):
+            if not (isinstance(n, ast.Call) and isinstance(n.func, ast.Attribute) and n.func.attr == "transform"):
+                continue
+            recv = U(n.func.value)
+            if recv == "self.transformer" or recv in fresh_names:
+                continue
+            n_entry += 1
+            cur, protected, how = n, False, "no enclosing try/finally (or resetting context manager)"
+            while cur in parents and not protected:
+                par = parents[cur]
+                if isinstance(par, ast.Try) and cur in par.body and (resets(par.finalbody, {recv, "self.transformer"}) or any((h.type is None or U(h.type) in ("Exception", "BaseException")) and resets(h.body, {recv, "self.transformer"}) for h in par.handlers)):
+                    protected = True
+                if isinstance(par, ast.With):
+                    for it in par.items:
+                        cm = it.context_expr
+                        if isinstance(cm, ast.Call) and isinstance(cm.func, ast.Attribute) and U(cm.func.value) == "self" and cm.func.attr in ci.methods:
+                            g = ci.methods[cm.func.attr]
+                            gp = {c: q for q in ast.walk(g) for c in ast.iter_child_nodes(q)}
+                            for y in [q for q in ast.walk(g) if isinstance(q, (ast.Yield, ast.YieldFrom))]:
+                                c2 = y
+                                while c2 in gp:
+                                    p2 = gp[c2]
+                                    if isinstance(p2, ast.Try) and c2 in p2.body and resets(p2.finalbody, {"self.transformer"}):
+                                        protected = True
+                                    c2 = p2
+                            if not protected:
+                                how = f"the context manager {cm.func.attr}() resets only when its block ends normally (its yield is not inside try ... finally)"
+                cur = par
+            ctx.check(f"Compiler.{mname}: an exception inside {recv}.transform() still resets the shared transformer", protected, "try ... finally: reset() around the use (in the method or in its context manager)", how if not protected else "protected", fn_where(idx, fi))
+    ctx.check("entry points that run the shared transformer", n_entry >= 2, "compile_c_stmt and transform_insn (at least)", str(n_entry), fn_where(idx, idx.func("Compiler.compile_c_stmt")), nontrivial=False)
     # any call may raise: every transform() on the shared transformer sits in a try whose finally (or catch-all handler) resets it
     for mname, m in ci.methods.items():
         fi = idx.func(f"Compiler.{mname}")
